@@ -44,7 +44,19 @@ def ensure_repo_import():
     return pybufrkit
 
 
+def _purge_stale_workdirs():
+    """Scratch directories of runs that were killed (their process is gone) are removed: a TLC state queue
+    left behind by an interrupted run can be many gigabytes."""
+    if not os.path.isdir(WORK):
+        return
+    for fn in os.listdir(WORK):
+        pid = fn.rsplit('-', 1)[-1]
+        if pid.isdigit() and not os.path.exists('/proc/%s' % pid):
+            shutil.rmtree(os.path.join(WORK, fn), ignore_errors=True)
+
+
 def workdir(name):
+    _purge_stale_workdirs()
     d = os.path.join(WORK, '%s-%d' % (name, os.getpid()))
     if os.path.isdir(d):
         shutil.rmtree(d)
